@@ -372,7 +372,7 @@ def parse_config_file(
             globs = name[5:]
             for glob in globs.split(","):
                 # For backwards compatibility, replace (back)slashes with dots.
-                glob = glob.replace(os.sep, ".")
+                glob = glob.strip().replace(os.sep, ".")
                 if os.altsep:
                     glob = glob.replace(os.altsep, ".")
 
